@@ -3,6 +3,7 @@ package main
 // Forward symbolic execution of go/ssa, path by path, generating obligations.
 
 import (
+	"go/ast"
 	"fmt"
 	"go/constant"
 	"go/token"
@@ -913,7 +914,7 @@ func (e *Engine) step(st *State, fr *Frame, in ssa.Instruction) {
 		e.runDefers(st, fr)
 	case *ssa.Send:
 		ch := e.val(st, fr, x.Chan)
-		e.chanSend(st, ch, e.val(st, fr, x.X), x)
+		e.chanSendNamed(st, fr, x.Chan, ch, e.val(st, fr, x.X), x)
 	default:
 		panic(unsupported(fmt.Sprintf("instruction %T", in)))
 	}
@@ -1907,6 +1908,11 @@ func isInvalid(T types.Type) bool {
 
 // ---------- channels (sequential ghost model) ----------
 
+func (e *Engine) chanSendNamed(st *State, fr *Frame, chv ssa.Value, ch Val, v Val, in ssa.Instruction) {
+	e.chanInv(st, fr, chv, v, true, in)
+	e.chanSend(st, ch, v, in)
+}
+
 func (e *Engine) chanSend(st *State, ch Val, v Val, in ssa.Instruction) {
 	closed := st.loadLeaf("chan|closed", []*Term{ch.t()}, BoolSort)
 	e.oblige(st, "chansend", e.siteName("chansend", in), Not(closed), in.Pos(), nil, "send on closed channel")
@@ -1918,10 +1924,72 @@ func (e *Engine) chanSend(st *State, ch Val, v Val, in ssa.Instruction) {
 	st.storeLeaf("chan|sent", []*Term{ch.t()}, Add(n, BVConst(1, 64)))
 }
 
+// chanName: the source-level name of a channel operand (local variable, captured variable), "" if unknown.
+func chanName(v ssa.Value) string {
+	if u, ok := v.(*ssa.UnOp); ok && u.Op == token.MUL {
+		switch a := u.X.(type) {
+		case *ssa.Alloc:
+			return a.Comment
+		case *ssa.FreeVar:
+			return a.Name()
+		}
+	}
+	if fn := v.Parent(); fn != nil {
+		for _, b := range fn.Blocks {
+			for _, in := range b.Instrs {
+				if d, ok := in.(*ssa.DebugRef); ok && d.X == v && !d.IsAddr {
+					if id, ok := d.Expr.(*ast.Ident); ok {
+						return id.Name
+					}
+				}
+			}
+		}
+	}
+	return ""
+}
+
+// chanInv: "chaninv NAME: expr" clauses of the contract under verification: every value travelling through the
+// channel NAME satisfies expr (written over the identifier v). Assumed for received values, an obligation for sent
+// ones - the rely/guarantee link between a function and the goroutine closures it starts, each verified on its own.
+func (e *Engine) chanInv(st *State, fr *Frame, chv ssa.Value, v Val, send bool, in ssa.Instruction) {
+	if e.cur == nil || e.cur.c == nil {
+		return
+	}
+	name := chanName(chv)
+	if name == "" {
+		return
+	}
+	c := e.cur.c
+	if !fr.isTop {
+		return
+	}
+	for _, cl := range c.Clauses {
+		if cl.Kind != "chaninv" || cl.Name != name {
+			continue
+		}
+		ctx := e.frameCtx(st, fr, fr.blk)
+		ctx.env["v"] = v
+		g := e.evalBool(ctx, cl.Expr)
+		if send {
+			if !e.cur.discover && e.cur.collect == nil {
+				e.curClause = cl
+				e.oblige(st, "chaninv", fmt.Sprintf("chaninv@%s#%d", name, cl.Ord), g, in.Pos(), cl.Props, cl.Text)
+				e.curClause = nil
+			}
+		} else {
+			st.assume(g)
+			st.note("channel invariant assumed for values received from " + name + " (guaranteed by the senders under the same clause)")
+		}
+	}
+}
+
 func (e *Engine) chanRecv(st *State, ch Val, x *ssa.UnOp) Val {
 	et := ch.T.Underlying().(*types.Chan).Elem()
 	v := freshVal(et, "recv")
 	st.assumeRefsOld(v)
+	if fr := st.top(); fr != nil {
+		e.chanInv(st, fr, x.X, v, false, x)
+	}
 	if x.CommaOk {
 		ok := FreshVar("recv_ok", BoolSort)
 		return Val{x.Type(), append(append([]*Term{}, v.L...), ok)}
@@ -1946,10 +2014,21 @@ func (e *Engine) selectInstr(st *State, fr *Frame, x *ssa.Select) {
 			L = append(L, BVConst(^uint64(0), 64))
 		}
 		L = append(L, FreshVar("recvOk", BoolSort))
+		ri := 0
 		for i := 2; i < tp.Len(); i++ {
 			v := freshVal(tp.At(i).Type(), "selrecv")
 			s.assumeRefsOld(v)
 			L = append(L, v.L...)
+			// the i-th received value belongs to the i-th receive state
+			for ; ri < n; ri++ {
+				if x.States[ri].Dir == types.RecvOnly {
+					if ri == idx {
+						e.chanInv(s, f, x.States[ri].Chan, v, false, x)
+					}
+					ri++
+					break
+				}
+			}
 		}
 		if idx < n && x.States[idx].Dir == types.SendOnly {
 			e.chanSend(s, e.val(s, f, x.States[idx].Chan), e.val(s, f, x.States[idx].Send), x)
